@@ -28,6 +28,41 @@ impl C08 {
     }
 }
 
+/// A foreign `DecodeBeatmap` implementor that switches the driver's line filter off and records every line it is handed.
+mod see_all {
+    use crate::probe::Never;
+    use rosu_map::{DecodeBeatmap, DecodeState};
+    pub struct SeeAll(pub Vec<(u8, String)>);
+    pub struct S(Vec<(u8, String)>);
+    impl DecodeState for S {
+        fn create(_: i32) -> Self {
+            S(Vec::new())
+        }
+    }
+    impl From<S> for SeeAll {
+        fn from(s: S) -> Self {
+            SeeAll(s.0)
+        }
+    }
+    macro_rules! rec {
+        ($($f:ident => $n:expr),*) => { $(
+            fn $f(state: &mut S, line: &str) -> Result<(), Never> {
+                state.0.push(($n, line.to_owned()));
+                Ok(())
+            }
+        )* }
+    }
+    impl DecodeBeatmap for SeeAll {
+        type Error = Never;
+        type State = S;
+        fn should_skip_line(_: &str) -> bool {
+            false
+        }
+        rec!(parse_general => 0, parse_editor => 1, parse_metadata => 2, parse_difficulty => 3, parse_events => 4, parse_timing_points => 5,
+             parse_colors => 6, parse_hit_objects => 7, parse_variables => 8, parse_catch_the_beat => 9, parse_mania => 10);
+    }
+}
+
 impl Scenario for C08 {
     fn id(&self) -> &'static str {
         "C08"
@@ -273,7 +308,7 @@ impl Scenario for C08 {
             p.set("dec", 0);
             p.set("t", *rng.pick(&[crate::transport::T_FROM_STR, crate::transport::T_FROM_STR, crate::transport::T_FROM_PATH, crate::transport::T_SLICE, crate::transport::T_FROM_PATH_PIPE]));
             p.set("inherent", 1);
-            p.set("fname", rng.below(8) as i64);
+            p.set("fname", rng.below(9) as i64);
             p.sched.clear();
             p.eintr.clear();
             p.p.remove("decoy");
@@ -281,10 +316,20 @@ impl Scenario for C08 {
         if rng.chance(1, 10) {
             // the real file system more often, under all sorts of file names
             p.set("t", crate::transport::T_FROM_PATH);
-            p.set("fname", rng.below(8) as i64);
+            p.set("fname", rng.below(9) as i64);
             p.set("locked", rng.below(3) as i64);
             p.sched.clear();
             p.eintr.clear();
+        }
+        if rng.chance(1, 4000) {
+            // a slow device: a storm of interruptions that lasts over half a second of real time, right at the start or
+            // somewhere later (real time only affects how long this run takes; the bytes are the same)
+            p.set("t", T_SIM);
+            p.sched = vec![64];
+            let at = if rng.chance(1, 2) { 0u32 } else { rng.below(20) as u32 };
+            p.eintr = (at..at + 45).collect();
+            p.set("eintr_sleep_ms", 15);
+            p.faults.push("R3-interrupted-storm-in-real-time".into());
         }
         if rng.chance(1, 1500) && p.data.len() > 2 {
             // real-OS, real-time probe (rare: each costs 120 ms): a pipe whose writer pauses in the middle
@@ -326,6 +371,27 @@ impl Scenario for C08 {
             }
             if rs.overconsume {
                 return Err(Violation::new("C08/overconsume", "consume>window", "consume() called with more than fill_buf exposed"));
+            }
+        }
+        // a foreign decoder type that sees every line (it overrides the blank-line / comment filter): the history of lines
+        // it is handed must not depend on the delivery either
+        if (plan.get("t") == T_SIM || plan.get("t") == T_BUFREADER) && plan.data.len() <= 200_000 && !plan.has("fault_at") {
+            use rosu_map::DecodeBeatmap as _;
+            let whole = see_all::SeeAll::decode(&plan.data[..]).map(|r| r.0).map_err(|e| e.kind());
+            let tail = plan.get("tail").max(0) as usize;
+            let mut dev = crate::simio::SimReader::new(&plan.data, &plan.sched, tail, &plan.eintr, None);
+            let chunked = if plan.get("t") == T_BUFREADER {
+                see_all::SeeAll::decode(std::io::BufReader::with_capacity(plan.get_or("cap", 8).max(1) as usize, crate::transport::DevRef(&mut dev))).map(|r| r.0).map_err(|e| e.kind())
+            } else {
+                see_all::SeeAll::decode(&mut dev).map(|r| r.0).map_err(|e| e.kind())
+            };
+            st.inc("ops.see-everything-recorder-differential");
+            if whole != chunked {
+                let at = match (&whole, &chunked) {
+                    (Ok(a), Ok(b)) => a.iter().zip(b.iter()).position(|(x, y)| x != y).unwrap_or(a.len().min(b.len())),
+                    _ => 0,
+                };
+                return Err(Violation::new("C08/mismatch", "lines-seen-by-a-foreign-decoder", format!("a decoder type that overrides should_skip_line (sees blank lines and comments too) is handed a different history of lines under this delivery than from the whole slice; first difference at delivery #{at}: {:?} vs {:?}", chunked.as_ref().ok().and_then(|v| v.get(at)), whole.as_ref().ok().and_then(|v| v.get(at)))));
             }
         }
         if via.out != base {
